@@ -56,6 +56,7 @@ type Contract struct {
 	MapRange map[int]string
 	SortCall map[int]string // ordinal of a sort.Slice call -> "total"
 	Variant  *Clause        // recursion measure (int, >= 0, strictly smaller at every recursive call)
+	Forbids  []*Clause      // forbid callee reason: no call named callee is executed (Text = "callee reason...")
 	ErrDrops []string       // call sites (callee#n | callee#*) whose error result is dropped on purpose, with the reason
 	PanicsIf *Clause
 	Asserts  []*Clause
@@ -111,7 +112,7 @@ type ContractSet struct {
 
 var clauseKeywords = map[string]bool{
 	"func": true, "props": true, "requires": true, "ensures": true, "pure": true, "opaque": true, "propagates": true, "errignorable": true, "inline": true,
-	"trusted": true, "assigns": true, "loop": true, "maprange": true, "sortcall": true, "errdrop": true, "variant": true, "panics": true, "at": true,
+	"trusted": true, "assigns": true, "loop": true, "maprange": true, "sortcall": true, "errdrop": true, "forbid": true, "variant": true, "panics": true, "at": true,
 	"pred": true, "ghost": true, "abstract": true, "reveal": true, "reads": true, "lemma": true, "typeinv": true, "axiom": true, "valueptr": true,
 	"note": true, "end": true, "immutable": true,
 }
@@ -333,6 +334,12 @@ func (cs *ContractSet) parseFile(pkg, file, text string) error {
 			if len(cur.Variant.Props) == 0 {
 				cur.Variant.Props = []string{"C13"}
 			}
+		case "forbid":
+			// forbid[@C] callee reason...  -- the function (its expansion) never executes a call named callee
+			if len(strings.Fields(rest)) < 2 {
+				return fmt.Errorf("%s:%d: forbid needs a callee name and a reason", file, ln)
+			}
+			cur.Forbids = append(cur.Forbids, mk("forbid"))
 		case "errdrop":
 			// errdrop callee#n reason...  -- the error of that call is deliberately not propagated
 			if len(strings.Fields(rest)) < 2 {
